@@ -10,7 +10,11 @@ HEADER = """From GM Require Import Corr.CorrBase Corr.CheckC19 Model.Pbc.
 Open Scope float_scope.
 """
 
-RULE = ("pairs residue/residue and residue/point (1..6 atoms per residue, spread <= 0.4 nm); first centre inside the box or up "
+RULE = ("pairs residue/residue and residue/point (1..6 atoms per residue, spread <= 0.4 nm); the objects are Residue objects or (one "
+        "case in six) Molecule objects built through real files; a Residue/Molecule argument is, one time in two, of the SAME KIND "
+        "as self - same residue name/number and atom names or same molecule species, so that `argument == self` holds for the "
+        "package although it sits elsewhere: a rigidly displaced copy (residue.copy() with new positions), another object of the "
+        "same size with its own shape, or the same names with another size - and otherwise of a different kind; first centre inside the box or up "
         "to 30 box lengths outside; separation given in fractional coordinates, |f| <= 4 (one in six <= 0.6, one in six <= 40), every fractional "
         "coordinate at least 1e-6 nm (measured along its box vector) away from a half-integer; boxes: orthorhombic with edges "
         "0.5..20 nm (log-uniform, cubic included), GROMACS lower-triangular triclinic (|off-diagonal| <= half the diagonal of its "
@@ -19,7 +23,9 @@ RULE = ("pairs residue/residue and residue/point (1..6 atoms per residue, spread
         "K additionally: no box, exactly singular boxes (a zero row, a zero column, the zero matrix -> LinAlgError), the empty "
         "residue (ValueError), dyadic exact ties in triclinic boxes (round-half-even observable); call histories: 2-5 consecutive "
         "distance_to calls that share ONE point object (float64 ndarray / int64 ndarray / list / tuple), ONE box ndarray, ONE "
-        "inverse-box ndarray and the Residue objects (1-3 residues, centres away from the origin; same or other residue as self, "
+        "inverse-box ndarray and the Residue (or Molecule) objects (1-3 of them, in half of the histories all of one kind and size, "
+        "centres away from the origin; same or other residue as self, in a third of the histories mostly residue arguments, now and "
+        "then the object itself, "
         "point or residue argument; with box / inverse flag / without box, in runs with the same flag); before half of the later "
         "calls the caller changes the shared box ndarray IN PLACE (box *= s with s in 0.7..1.4, 1 +- 2e-3, 2 or 0.5; box[:] = a "
         "new box of any kind; a shear box[i,j] += delta) and writes the new inverse into the shared inverse-box ndarray in place, "
@@ -41,14 +47,56 @@ def make_residue(points, resid=1, resname="RES"):
     return Residue(atoms)
 
 
-def impl_distance(self_pts, other_kind, other, box, inv):
+_MOL_TEMPLATES = {}
+
+
+def make_molecule_obj(points, species="MOL"):
+    """a gaddlemaps Molecule (one residue up to 3 atoms, two residues above) of the given species with the given atom
+    positions; built once per (species, size) through real files (molgen) and then copied: two objects of the same
+    species and size have the same molecule name, atom names and residue names, i.e. they are `==` for the package"""
+    import molgen
+    n = len(points)
+    key = (species, n)
+    if key not in _MOL_TEMPLATES:
+        pre = "A" if species == "MOL" else "B"
+        atoms = [("%s%d" % (pre, k), species[:2] + ("A" if (n < 4 or k < n // 2) else "B"), 1 if (n < 4 or k < n // 2) else 2)
+                 for k in range(n)]
+        _MOL_TEMPLATES[key] = molgen.make_molecule("%s%d" % (species, n), atoms, np.arange(3 * n).reshape(n, 3) * 0.1,
+                                                   [(k, k + 1) for k in range(n - 1)])
+    m = _MOL_TEMPLATES[key].copy()
+    m.atoms_positions = np.array(points, dtype=float)
+    return m
+
+
+def build_pair(self_pts, other_kind, other, cls="residue", same_kind=False):
+    """the two arguments as objects of the implementation.
+    cls: "residue" (Residue objects) or "molecule" (Molecule objects, which inherit distance_to);
+    same_kind: the second object has the names of the first (residue name and number, atom names / molecule species): a
+    displaced copy, another water, another molecule of the species - `second == first` holds although it is elsewhere."""
+    if not self_pts or (other_kind == "residue" and not other):
+        cls = "residue"          # the empty Residue (ValueError) exists only as a Residue
+    if cls == "molecule":
+        a = make_molecule_obj(self_pts, "MOL")
+    else:
+        a = make_residue(self_pts)
+    if other_kind != "residue":
+        return a, np.array(other, dtype=float)
+    if cls == "molecule":
+        b = make_molecule_obj(other, "MOL" if same_kind else "OTH")
+    elif same_kind and len(other) == len(self_pts):
+        b = a.copy()                                   # a displaced (and possibly deformed) copy
+        b.atoms_positions = np.array(other, dtype=float)
+    elif same_kind:
+        b = make_residue(other)                        # same residue name/number and atom names, other size
+    else:
+        b = make_residue(other, resid=2, resname="OTH")
+    return a, b
+
+
+def impl_distance(self_pts, other_kind, other, box, inv, cls="residue", same_kind=False):
     """Runs Residue.distance_to of the implementation.  Returns ("ok", float) or ("err", code)."""
     try:
-        a = make_residue(self_pts)
-        if other_kind == "residue":
-            b = make_residue(other, resid=2, resname="OTH")
-        else:
-            b = np.array(other, dtype=float)
+        a, b = build_pair(self_pts, other_kind, other, cls, same_kind)
         bv = None if box is None else np.array(box, dtype=float)
         with np.errstate(all="ignore"):
             if bv is None:
@@ -66,6 +114,18 @@ def impl_distance(self_pts, other_kind, other, box, inv):
         return "err", "EType"
     except IndexError:
         return "err", "EIndex"
+
+
+def arg_tag(case):
+    """argument kind for the histograms: point | residue | same_kind_residue | molecule | same_kind_molecule (+ self class)"""
+    cls = case.get("cls", "residue")
+    if case["other_kind"] != "residue":
+        return "point" + ("(self=molecule)" if cls == "molecule" else "")
+    return ("same_kind_" if case.get("same_kind") else "") + cls
+
+
+def obj_kw(case):
+    return {"cls": case.get("cls", "residue"), "same_kind": bool(case.get("same_kind", False))}
 
 
 # ------------------------------------------------------------------ generators
@@ -142,10 +202,19 @@ def gen_pair(rs, B, boundary=False, ortho=False):
     o = c + f @ B
     na = int(rs.choice([1, 1, 2, 3, 6]))
     self_pts = blob(rs, c, na)
+    cls = "molecule" if rs.randint(0, 6) == 0 else "residue"
     if rs.randint(0, 2) == 0:
-        return {"self": self_pts.tolist(), "other_kind": "point", "other": [float(x) for x in o]}
+        return {"self": self_pts.tolist(), "other_kind": "point", "other": [float(x) for x in o], "cls": cls, "same_kind": False}
+    r = rs.randint(0, 6)
+    if r < 2:      # a rigidly displaced copy of self (same names): residue.copy(); move(...)
+        other = self_pts - centre(self_pts) + o
+        return {"self": self_pts.tolist(), "other_kind": "residue", "other": other.tolist(), "cls": cls, "same_kind": True}
+    if r == 2:     # another object of the same kind (same names and size) with its own shape: two waters
+        return {"self": self_pts.tolist(), "other_kind": "residue", "other": blob(rs, o, na).tolist(), "cls": cls,
+                "same_kind": True}
     nb = int(rs.choice([1, 2, 4, 6]))
-    return {"self": self_pts.tolist(), "other_kind": "residue", "other": blob(rs, o, nb).tolist()}
+    return {"self": self_pts.tolist(), "other_kind": "residue", "other": blob(rs, o, nb).tolist(), "cls": cls,
+            "same_kind": bool(r == 3)}     # r == 3: same names, (mostly) another size
 
 
 def gen_case(rs):
@@ -238,7 +307,9 @@ def oracle_case(case, shifts):
     bad = []
     B = np.array(case["box"], dtype=float)
     sp, ok, ot = case["self"], case["other_kind"], case["other"]
-    st, d = impl_distance(sp, ok, ot, B, False)
+    kw = obj_kw(case)
+    what = "%s%s argument" % ("same-kind " if kw["same_kind"] else "", kw["cls"] if ok == "residue" else "point")
+    st, d = impl_distance(sp, ok, ot, B, False, **kw)
     if st != "ok" or not np.isfinite(d):
         return ["distance_to failed or is not finite on a non-singular box: %r" % ((st, d),)]
     tol = TOL * (1.0 + d)
@@ -248,34 +319,45 @@ def oracle_case(case, shifts):
     if is_ortho(B):
         dmin = brute_min_image(v, np.diag(B))
         if abs(d - dmin) > tol:
-            bad.append("orthorhombic: distance %.12g is not the minimum over the periodic images %.12g" % (d, dmin))
+            bad.append("orthorhombic, %s: distance %.12g is not the minimum over the periodic images %.12g" % (what, d, dmin))
         if d > free + tol:
             bad.append("orthorhombic: periodic distance %.12g exceeds the non-periodic distance %.12g" % (d, free))
-        st0, d0 = impl_distance(sp, ok, ot, None, False)
-        if st0 != "ok" or d > d0 + tol:
-            bad.append("orthorhombic: periodic distance %.12g exceeds distance_to without box %r" % (d, d0))
+    # without box: the non-periodic (Euclidean) distance of the centres; the periodic one never exceeds it (orthorhombic)
+    st0, d0 = impl_distance(sp, ok, ot, None, False, **kw)
+    if st0 != "ok" or abs(d0 - free) > TOL * (1.0 + free):
+        bad.append("%s, no box: distance_to returned %r, the non-periodic distance of the centres is %.12g" % (what, d0, free))
+    elif is_ortho(B) and d > d0 + tol:
+        bad.append("orthorhombic: periodic distance %.12g exceeds distance_to without box %r" % (d, d0))
+    # a residue (molecule) argument stands for its geometric centre: same value as the point there, every box form
+    if ok == "residue":
+        for bx, iv, lab in ((B, False, "box"), (np.linalg.inv(B), True, "inverse box"), (None, False, "no box")):
+            sr, dr = impl_distance(sp, ok, ot, bx, iv, **kw)
+            sq, dq = impl_distance(sp, "point", o.tolist(), bx, iv, cls=kw["cls"])
+            if sr != "ok" or sq != "ok" or abs(dr - dq) > TOL * (1.0 + dq):
+                bad.append("%s, %s: distance_to returned %r but %r for the point at its geometric centre" % (what, lab, dr, dq))
+                break
     # symmetry
     other_pts = ot if ok == "residue" else [ot]
-    st2, d2 = impl_distance(other_pts, "residue", sp, B, False)
+    st2, d2 = impl_distance(other_pts, "residue", sp, B, False, **kw)
     if st2 != "ok" or abs(d2 - d) > tol:
         bad.append("not symmetric: d(a,b)=%.12g d(b,a)=%r" % (d, d2))
     if len(sp) == 1:
-        st2, d2 = impl_distance(other_pts, "point", sp[0], B, False)
+        st2, d2 = impl_distance(other_pts, "point", sp[0], B, False, **kw)
         if st2 != "ok" or abs(d2 - d) > tol:
             bad.append("not symmetric (point argument): d(a,b)=%.12g d(b,a)=%r" % (d, d2))
     # inverse flag
-    st3, d3 = impl_distance(sp, ok, ot, np.linalg.inv(B), True)
+    st3, d3 = impl_distance(sp, ok, ot, np.linalg.inv(B), True, **kw)
     if st3 != "ok" or abs(d3 - d) > tol:
         bad.append("inverse flag: distance_to(., inv(B), inv=True)=%r differs from distance_to(., B)=%.12g" % (d3, d))
     # lattice shifts of either argument
     for n in shifts:
         w = np.array(n, dtype=float) @ B
         ot_s = shifted(ot, w) if ok == "residue" else (np.array(ot, dtype=float) + w).tolist()
-        st4, d4 = impl_distance(sp, ok, ot_s, B, False)
+        st4, d4 = impl_distance(sp, ok, ot_s, B, False, **kw)
         if st4 != "ok" or abs(d4 - d) > tol:
             bad.append("changes under the lattice shift %s of the second argument: %.12g -> %r" % (list(n), d, d4))
             break
-        st5, d5 = impl_distance(shifted(sp, w), ok, ot, B, False)
+        st5, d5 = impl_distance(shifted(sp, w), ok, ot, B, False, **kw)
         if st5 != "ok" or abs(d5 - d) > tol:
             bad.append("changes under the lattice shift %s of the first argument: %.12g -> %r" % (list(n), d, d5))
             break
@@ -336,6 +418,20 @@ def snapshot(x):
     return x.copy() if isinstance(x, np.ndarray) else type(x)(x)
 
 
+HISTORY_SPECIES = ("MOL", "OTH", "PQR", "XYZ")
+
+
+def history_objects(h):
+    """the Residue / Molecule objects of a history; with same_kind they all carry the same names (and, having the same
+    size, are `==` for the package although they sit at different places)"""
+    same = bool(h.get("same_kind", False))
+    if h.get("cls", "residue") == "molecule":
+        return [make_molecule_obj(pts, "MOL" if same else HISTORY_SPECIES[k % 4]) for k, pts in enumerate(h["residues"])]
+    if same:
+        return [make_residue(pts) for pts in h["residues"]]
+    return [make_residue(pts, resid=k + 1, resname="R%d" % k) for k, pts in enumerate(h["residues"])]
+
+
 def run_history(h, impl=True):
     """Runs the call sequence of h on the implementation with ONE point object, ONE box array, ONE inverse-box array and
     ONE Residue object per residue, all reused between the calls and - `pre` of a call - CHANGED IN PLACE by the caller
@@ -348,7 +444,7 @@ def run_history(h, impl=True):
     B0 = np.array(h["box"], dtype=float)
     state = {"box": B0.copy(), "ibox": np.linalg.inv(B0), "point": make_point(h["point"], h["point_form"])}
     box, ibox, point = state["box"], state["ibox"], state["point"]
-    residues = [make_residue(pts, resid=k + 1, resname="R%d" % k) for k, pts in enumerate(h["residues"])] if impl else None
+    residues = history_objects(h) if impl else None
     snap_res = [np.array(pts, dtype=float) for pts in h["residues"]]
     records, bad, pending = [], [], []
     for k, c in enumerate(h["calls"]):
@@ -463,10 +559,14 @@ def gen_history(rs):
     while True:
         kind, B = gen_box(rs)
         nres = int(rs.randint(1, 4))
+        same_kind = bool(rs.randint(0, 2))
+        cls = "molecule" if rs.randint(0, 6) == 0 else "residue"
+        heavy = bool(nres > 1 and rs.randint(0, 3) == 0)      # mostly residue/molecule arguments
+        size = int(rs.choice([1, 2, 3, 5]))
         residues = []
         for _ in range(nres):
             cf = rs.uniform(-3, 3, size=3) if rs.randint(0, 4) else rs.uniform(-30, 30, size=3)
-            residues.append(blob(rs, cf @ B, int(rs.choice([1, 2, 3, 5]))).tolist())
+            residues.append(blob(rs, cf @ B, size if same_kind else int(rs.choice([1, 2, 3, 5]))).tolist())
         form = str(rs.choice(POINT_FORMS))
         f = rs.uniform(-4, 4, size=3)
         anchor = centre(residues[0])
@@ -480,8 +580,10 @@ def gen_history(rs):
         updated = False
         for k in range(ncalls):
             me = int(rs.randint(nres))
-            if k < 2 or nres == 1 or rs.randint(0, 3):
+            if nres == 1 or (not heavy and (k < 2 or rs.randint(0, 2))) or (heavy and rs.randint(0, 4) == 0):
                 other = "point"
+            elif rs.randint(0, 8) == 0:
+                other = me            # the object itself: distance 0 is right here
             else:
                 other = int(rs.choice([j for j in range(nres) if j != me]))
             call = {"self": me, "other": other,
@@ -497,15 +599,17 @@ def gen_history(rs):
                     updated = True
             calls.append(call)
         h = {"kind": "history", "boxkind": kind, "box": B.tolist(), "residues": residues,
-             "point": [float(x) for x in pt], "point_form": form, "calls": calls, "updates": updated}
+             "point": [float(x) for x in pt], "point_form": form, "calls": calls, "updates": updated,
+             "same_kind": same_kind, "cls": cls}
         if history_in_domain(h):
             return h
 
 
 def history_tag(h):
     upd = any(c.get("pre") for c in h["calls"])
-    return "history/%s/%s/%s" % ("ortho" if h["boxkind"].startswith("ortho") else "tric", h["point_form"],
-                                 "updated_in_place" if upd else "arrays_constant")
+    return "history/%s/%s/%s%s%s" % ("ortho" if h["boxkind"].startswith("ortho") else "tric", h["point_form"],
+                                     "updated_in_place" if upd else "arrays_constant",
+                                     "/same_kind" if h.get("same_kind") else "", "/molecule" if h.get("cls") == "molecule" else "")
 
 
 # seeded/C19-4 (dropped copy): np.asarray(point, dtype=float) is the caller's own float64 array and `vect -= centre`
@@ -596,6 +700,19 @@ CORPUS = [
       "other_kind": "residue", "other": [[2.9, 3.9, 4.9], [3.1, 4.1, 5.1]]}, float(np.sqrt(0.01 + 0.04 + 0.09))),
     ({"kind": "distance", "boxkind": "tric_gromacs", "box": [[3.0, 0.0, 0.0], [1.0, 4.0, 0.0], [-1.0, 1.5, 5.0]],
       "self": [[0.1, 0.2, 0.3]], "other_kind": "point", "other": [7.3, 9.1, -14.2]}, None),
+    # seeded/C19-9 (`if residue == self: return 0.0`; == compares names, not positions): a 3-atom residue and a displaced
+    # copy of it in box diag(3,4,5) were reported at distance 0 instead of 2.0322; the same for two molecules of one species
+    ({"kind": "distance", "boxkind": "ortho", "box": np.diag([3.0, 4.0, 5.0]).tolist(),
+      "self": [[0.40, 0.50, 0.60], [0.50, 0.55, 0.60], [0.45, 0.60, 0.70]], "other_kind": "residue",
+      "other": [[1.40, 3.20, -0.60], [1.50, 3.25, -0.60], [1.45, 3.30, -0.50]], "cls": "residue", "same_kind": True},
+     float(np.sqrt(1.0 + 1.3 ** 2 + 1.2 ** 2))),
+    ({"kind": "distance", "boxkind": "ortho", "box": np.diag([3.0, 4.0, 5.0]).tolist(),
+      "self": [[0.40, 0.50, 0.60], [0.50, 0.55, 0.60], [0.45, 0.60, 0.70]], "other_kind": "residue",
+      "other": [[1.40, 3.20, -0.60], [1.50, 3.25, -0.60], [1.45, 3.30, -0.50]], "cls": "molecule", "same_kind": True},
+     float(np.sqrt(1.0 + 1.3 ** 2 + 1.2 ** 2))),
+    ({"kind": "distance", "boxkind": "tric_gromacs", "box": [[3.0, 0.0, 0.0], [1.0, 4.0, 0.0], [-1.0, 1.5, 5.0]],
+      "self": [[0.1, 0.2, 0.3], [0.3, 0.2, 0.1]], "other_kind": "residue", "other": [[7.2, 9.1, -14.1], [7.4, 9.1, -14.3]],
+      "cls": "residue", "same_kind": True}, None),
 ]
 
 
@@ -605,7 +722,7 @@ def corpus(ctx):
     for case, expected in CORPUS:
         bad = oracle_case(case, ALL_SHIFTS)
         if expected is not None:
-            st, d = impl_distance(case["self"], case["other_kind"], case["other"], np.array(case["box"]), False)
+            st, d = impl_distance(case["self"], case["other_kind"], case["other"], np.array(case["box"]), False, **obj_kw(case))
             if st != "ok" or abs(d - expected) > TOL:
                 bad.append("expected the minimum-image distance %.12g, got %r" % (expected, d))
         S["corpus"] += 1
@@ -626,7 +743,7 @@ def correspondence(ctx):
     cases, meta, hist = [], [], {}
 
     def add(case, box, inv, tag, nontrivial=True):
-        obs = impl_distance(case["self"], case["other_kind"], case["other"], box, inv)
+        obs = impl_distance(case["self"], case["other_kind"], case["other"], box, inv, **obj_kw(case))
         cases.append(coq_case(case["self"], case["other_kind"], case["other"], box, inv, obs))
         m = dict(case, inv=bool(inv), variant=tag, observed=list(obs))
         if box is None:
@@ -645,13 +762,13 @@ def correspondence(ctx):
         case = gen_case(rs)
         B = np.array(case["box"])
         inv = bool(rs.randint(0, 3) == 0)
-        tag = "%s/%s/%s%s" % (case["boxkind"], case["other_kind"], "inv" if inv else "box", "/boundary" if case["boundary"] else "")
+        tag = "%s/%s/%s%s" % (case["boxkind"], arg_tag(case), "inv" if inv else "box", "/boundary" if case["boundary"] else "")
         obs = add(case, np.linalg.inv(B) if inv else B, inv, tag)
         o = centre(case["other"]) if case["other_kind"] == "residue" else np.array(case["other"])
         if obs[0] == "ok" and abs(obs[1] - np.linalg.norm(o - centre(case["self"]))) > 1e-9:
             wrapped += 1
-        if k % 10 == 0:
-            add(case, None, False, "nobox", nontrivial=False)
+        if k % 10 == 0 or (case.get("same_kind") and k % 3 == 0):
+            add(case, None, False, "nobox" + ("/same_kind" if case.get("same_kind") else ""), nontrivial=False)
         # S on a part of the same cases
         if k % 4 == 0 and in_domain(case):
             ctx.cov["S"]["on_K_cases"] = ctx.cov["S"].get("on_K_cases", 0) + 1
@@ -745,7 +862,7 @@ def oracle(ctx, scale):
             continue
         shifts = ALL_SHIFTS if k < n_full else pick_shifts(rs, 8)
         bad = oracle_case(case, shifts)
-        tag = "%s/%s%s" % (case["boxkind"], case["other_kind"], "/boundary" if case["boundary"] else "")
+        tag = "%s/%s%s" % (case["boxkind"], arg_tag(case), "/boundary" if case["boundary"] else "")
         hist[tag] = hist.get(tag, 0) + 1
         ctx.count(("S", repr(case)))
         if bad:
